@@ -208,7 +208,17 @@ def addresses(tier):
             out.append((f"T4:{e}.{sub}", "T/" + ("word" if sub in ("PRE", "ACC") else "bit")))
         for sub in ("PRE", "ACC", "CU", "CD", "DN", "OV", "UN", "UA"):
             out.append((f"C5:{e}.{sub}", "C/" + ("word" if sub in ("PRE", "ACC") else "bit")))
-    # lower / mixed case
+    # lower case spelling of every address (every 16th of the 8192 binary bit numbers)
+    low = []
+    nbit = 0
+    for text, cls in out:
+        if cls == "B/bitnumber":
+            nbit += 1
+            if nbit % 16:
+                continue
+        if text.lower() != text:
+            low.append((text.lower(), cls + "-lower"))
+    out += low
     out += [("n7:1", "N/word-lower"), ("b3/17", "B/bitnumber-lower"), ("n9:2/3", "N/bit-lower"), ("f8:1", "F/word-lower"), ("s:1/2", "S/bit-lower"),
             ("i:1.0/3", "I/slot.word-bit-lower"), ("t4:1.acc", "T/word-lower"), ("c5:0.dn", "C/bit-lower"), ("l11:3", "L/word-lower")]
     return out
@@ -232,7 +242,9 @@ def values_for(a, tier, text):
             one = list(range(-32768, 32768))
     if a.count == 1:
         return one
-    return [[one[(i + k) % len(one)] for i in range(a.count)] for k in range(2)]
+    exact = [[one[(i + k) % len(one)] for i in range(a.count)] for k in range(2)]
+    # more values than {count}: only count elements may be written
+    return exact + [exact[0] + [one[3], one[4]], exact[1] + [one[2]]]
 
 
 def shards(tier, seed):
